@@ -261,6 +261,19 @@ fn probes(thorough: bool) -> Vec<(&'static str, Stmt)> {
     for e in [Expr::Nil, Expr::True, num(1.5), num(-0.0), s("x"), Expr::VecLit(vec![s("a"), num(1.0)]), Expr::TupleLit(vec![num(1.0)]), Expr::TupleLit(vec![]), range_of(1, -2), var("Num")] {
         out.push(("S5_string_from", probe(invoke(var("String"), "from", vec![e]))));
     }
+    // numbers of every magnitude as text: String.from, interpolation, and inside containers (one text for
+    // one number however it is turned into a string)
+    for t in ["0", "1", "255", "2147483648", "4294967296", "9007199254740991", "9007199254740992", "9007199254740994", "18014398509481988", "1152921504606846976", "9223372036854774784", "9223372036854775808", "18446744073709551616", "1000000000000000000000", "10000000000000000000000", "123456789.125", "0.1", "0.000001", "0.0000001"] {
+        let v: f64 = t.parse().unwrap();
+        for sign in [1.0f64, -1.0] {
+            let lit = || if sign > 0.0 { Expr::RawNum(t.to_string(), v) } else { un(UnOp::Neg, Expr::RawNum(t.to_string(), v)) };
+            out.push(("S5_numbers_as_text", probe(invoke(var("String"), "from", vec![lit()]))));
+            out.push(("S5_numbers_as_text", probe(Expr::Interp(vec![Part::Lit("<".into()), Part::Expr(Expr::Paren(Box::new(lit()))), Part::Lit(">".into())]))));
+            out.push(("S5_numbers_as_text", probe(invoke(var("String"), "from", vec![Expr::VecLit(vec![lit(), Expr::TupleLit(vec![lit()])])]))));
+            out.push(("S5_numbers_as_text", probe(bin(BinOp::Eq, invoke(var("String"), "from", vec![lit()]), Expr::Interp(vec![Part::Expr(Expr::Paren(Box::new(lit())))])))));
+            out.push(("S5_numbers_as_text", probe(invoke(invoke(var("String"), "from", vec![lit()]), "len", vec![]))));
+        }
+    }
     // S6 escape forms in literals: (source text, value)
     let escapes: Vec<(&str, String)> = vec![
         ("\\x41", "A".into()),
